@@ -10,7 +10,7 @@ import numpy as np
 import xarray as xr
 
 PID = 'C11'
-RULE = ("call specs = (function, parameter variant, dtype, backend) over 40 public functions, every function in >= 3 variants that "
+RULE = ("call specs = (function, parameter variant, dtype, backend) over 42 public functions plus six 130-170 cell-wide 'big' variants (compiled mode only; two per sequence), every function in >= 3 variants that "
         "differ in parameters (targets, max_distance, metric, output mode, kernel shape, k, bins, connectivity, soil factor, seed), "
         "dtype and backend, defaults interleaved with explicit arguments; a seeded sequence of 12-30 specs is executed in one "
         "process (every spec repeated at a later position), then (a) a sample of its calls is replayed each in a fresh interpreter, "
@@ -61,8 +61,9 @@ def _catalogue():
     C['true_color'] = (3, 2, lambda v, r, x: ms.true_color(*r) if v == 0 else ms.true_color(*r, nodata=3, c=5.0, th=0.2), True, 'band')
     for nm in ('proximity', 'allocation', 'direction'):
         f = getattr(xrspatial, nm)
-        C[nm] = (1, 5, (lambda f: lambda v, r, x: [f(r[0]), f(r[0], target_values=[2, 3]), f(r[0], max_distance=x['cell'] * 2.5), f(r[0], distance_metric='MANHATTAN'),
-                                                  f(r[0], target_values=[1], max_distance=x['cell'] * 1.5, distance_metric='MANHATTAN')][v])(f), True, 'targets')
+        C[nm] = (1, 6, (lambda f: lambda v, r, x: [f(r[0]), f(r[0], target_values=[2, 3]), f(r[0], max_distance=x['cell'] * 2.5), f(r[0], distance_metric='MANHATTAN'),
+                                                  f(r[0], target_values=[1], max_distance=x['cell'] * 1.5, distance_metric='MANHATTAN'),
+                                                  f(r[0], max_distance=x['diag'])][v])(f), True, 'targets')
     C['a_star_search'] = (1, 4, lambda v, r, x: [xrspatial.a_star_search(r[0], x['start'], x['goal'], barriers=[0]),
                                                 xrspatial.a_star_search(r[0], x['start'], x['goal'], barriers=[0], connectivity=4),
                                                 xrspatial.a_star_search(r[0], x['start'], x['goal'], barriers=[0, 1], snap_start=True, snap_goal=True),
@@ -78,6 +79,15 @@ def _catalogue():
     C['polygonize'] = (1, 2, lambda v, r, x: polygonize(r[0], connectivity=[4, 8][v]), False, 'targets')
     C['perlin'] = (1, 3, lambda v, r, x: [xrspatial.perlin(r[0]), xrspatial.perlin(r[0], freq=(3, 2), seed=11), xrspatial.perlin(r[0], seed=11)][v], True, 'zeros')
     C['generate_terrain'] = (1, 2, lambda v, r, x: xrspatial.generate_terrain(r[0], x_range=(0, 100), y_range=(0, 50), seed=[3, 7][v], zfactor=[4000, 10][v]), True, 'zeros')
+    C['circle_kernel'] = (0, 4, lambda v, r, x: convolution.circle_kernel(*[(1, 1, 3), (1, 2, 3), (1, 1, 2), (2, 2, '6 m')][v]), False, 'none')
+    C['annulus_kernel'] = (0, 4, lambda v, r, x: convolution.annulus_kernel(*[(1, 1, 3, 1), (1, 2, 3, 1), (1, 1, 2, 1), (2, 2, 6, 2)][v]), False, 'none')
+    # large rasters: a kernel switched to parallel execution only races when blocks/threads really overlap in time
+    C['big.focal.apply'] = (1, 2, lambda v, r, x: focal.apply(r[0], [K3, K35][v], [focal._calc_mean, focal._calc_max][v]), True, 'bigelev')
+    C['big.focal_stats'] = (1, 1, lambda v, r, x: focal.focal_stats(r[0], K3, ['max', 'mean']), True, 'bigelev')
+    C['big.convolution_2d'] = (1, 1, lambda v, r, x: convolution.convolution_2d(r[0], K35), True, 'bigelev')
+    C['big.focal.mean'] = (1, 1, lambda v, r, x: focal.mean(r[0], passes=2), True, 'bigelev')
+    C['big.slope'] = (1, 1, lambda v, r, x: xrspatial.slope(r[0]), True, 'bigelev')
+    C['big.hotspots'] = (1, 1, lambda v, r, x: focal.hotspots(r[0], K3), True, 'bigelev')
     C['local.cell_stats'] = (3, 3, lambda v, r, x: local.cell_stats(xr.Dataset({'a': r[0], 'b': r[1], 'c': r[2]}), **[{}, {'func': 'max'}, {'func': 'std', 'data_vars': ['c', 'a']}][v]), False, 'small')
     C['local.combine'] = (3, 2, lambda v, r, x: local.combine(xr.Dataset({'a': r[0], 'b': r[1], 'c': r[2]}), **[{}, {'data_vars': ['b', 'a']}][v]), False, 'small')
     C['local.rank'] = (3, 1, lambda v, r, x: local.rank(xr.Dataset({'a': r[0], 'b': r[1], 'ref': r[2]}), 'ref'), False, 'rank')
@@ -115,6 +125,8 @@ def build(spec, seed):
     n, nv, f, dask_ok, kind = cat()[nm]
     rng = _stable_rng('C11spec', spec, seed)
     H, W = int(rng.integers(4, 9)), int(rng.integers(4, 9))
+    if kind == 'bigelev':
+        H, W = int(rng.integers(130, 171)), int(rng.integers(130, 171))
     if kind == 'zeros' and np.dtype(dt).kind != 'f':
         dt = 'float32'
     if nm == 'viewshed':
@@ -123,7 +135,7 @@ def build(spec, seed):
     ys = (np.arange(H) * cell)[::-1].copy(); xs = np.arange(W) * cell + 10
     rasters = []
     for i in range(n):
-        if kind == 'elev': a = rng.integers(0, 40, (H, W)).astype('float64')
+        if kind in ('elev', 'bigelev'): a = rng.integers(0, 40, (H, W)).astype('float64')
         elif kind == 'small': a = rng.integers(0, 6, (H, W)).astype('float64')
         elif kind == 'band': a = rng.integers(0, 200, (H, W)).astype('float64')
         elif kind == 'targets': a = np.where(rng.random((H, W)) < 0.3, rng.integers(1, 4, (H, W)), 0).astype('float64')
@@ -140,13 +152,15 @@ def build(spec, seed):
             import dask.array as da
             from vlib import gen
             ch = ((H,), (W,))
-            for _t in range(30):
+            if kind == 'bigelev':
+                ch = (gen.random_composition(H, rng, 0.012), gen.random_composition(W, rng, 0.012))
+            for _t in range(0 if kind == 'bigelev' else 30):
                 c2 = gen.random_chunks((H, W), rng)
                 if 2 <= len(c2[0]) * len(c2[1]) <= 6:          # C11 is not about chunking; many tiny blocks only cost time
                     ch = c2; break
             data = da.from_array(arr, chunks=ch)
         rasters.append(xr.DataArray(data, dims=['y', 'x'], coords={'y': ys, 'x': xs}, attrs={'res': (cell, cell)}, name='r%d' % i))
-    aux = dict(cell=cell, start=(float(ys[0]), float(xs[0])), goal=(float(ys[-1]), float(xs[-1])), vx=float(xs[W // 2]), vx2=float(xs[1]), vy=float(ys[H // 2]))
+    aux = dict(cell=cell, diag=float(np.hypot((H - 1) * cell, (W - 1) * cell)) * (1.0 if rng.random() < 0.5 else 1.25), start=(float(ys[0]), float(xs[0])), goal=(float(ys[-1]), float(xs[-1])), vx=float(xs[W // 2]), vx2=float(xs[1]), vy=float(ys[H // 2]))
     return (lambda: f(v, rasters, aux)), rasters
 
 
@@ -250,6 +264,8 @@ def check(rec, kind, idx, rng, tier):
     heavy_left = 2 if (J and tier == 'quick') else (6 if J else 10 ** 6)
     if J and tier == 'quick':
         names = [n for n in names if n != 'viewshed']
+    if not J:
+        names = [n for n in names if not n.startswith('big.')]      # a parallel=True kernel can only race when compiled
     while len(chosen) < L:
         nm = str(rng.choice(names))
         cands = [s for s in specs_all if s.startswith(nm + '|')]
@@ -261,6 +277,10 @@ def check(rec, kind, idx, rng, tier):
         for s in rng.choice(cands, size=k, replace=False):
             chosen.append(str(s))
     chosen = chosen[:L]
+    if J:
+        bigs = [s for s in specs_all if s.startswith('big.')]
+        for s in rng.choice(bigs, size=2, replace=False):
+            chosen.append(str(s))
     order = [chosen[i] for i in rng.permutation(len(chosen))]
     # each spec is executed again at a later position (repeat clause)
     seq = list(order)
